@@ -37,7 +37,7 @@ def alphabet():
 
 
 def floors(tier):
-    return {"injections": 1500, "injections_inside_iteration": 800, "clean_reruns_compared": 1500, "problems": 40,
+    return {"injections": 1500, "injections_inside_iteration": 800, "clean_reruns_compared": 1500, "problems": 40, "problems_with_verbose_logging": 10,
             "injections_in_restarted_runs": 200, "kind:f": 300, "kind:g": 100, "kind:cb": 50, "kind:ufd": 50, "kind:scaler": 20, "kind:ftarget": 20, "kind:gtol": 20,
             "__nontrivial__": 800}
 
@@ -52,12 +52,17 @@ def cases(tier, seed):
     for i in range(nprob):
         ps = gen.rand_spec(rng, FAMS, nmax=4, nmin=2, boxes=("none", "mixed", "boxed"), starts=("interior", "face"))
         yield {"problem": ps, "mode": gen.pick(rng, ["callable", "callable", None, "2-point"]), "maxcor": int(rng.integers(1, 5)),
-               "maxiter": int(rng.integers(2, 6)), "rot": int(rng.integers(0, 11))}
+               "maxiter": int(rng.integers(2, 6)), "rot": int(rng.integers(0, 11)),
+               "iprint": int(gen.pick(rng, [0, 1, 99, 100, 101])) if i % 3 == 1 else None}
 
 
 def make_cfg(spec):
-    return dict(jac=spec["mode"], maxcor=spec["maxcor"], maxiter=spec["maxiter"], maxls=5, ftol=0.0, gtol=1e-10, gtol_callable=True,
-                ftarget=-1e300, ftarget_callable=True, cb="never", ufd="identity", scaler=2.0, maxfun=10000)
+    cfg = dict(jac=spec["mode"], maxcor=spec["maxcor"], maxiter=spec["maxiter"], maxls=5, ftol=0.0, gtol=1e-10, gtol_callable=True,
+               ftarget=-1e300, ftarget_callable=True, cb="never", ufd="identity", scaler=2.0, maxfun=10000)
+    if spec.get("iprint") is not None:
+        # verbose tracing through a user-supplied logger: the code paths that format diagnostics run while the fault travels
+        cfg.update(logger=True, iprint=spec["iprint"])
+    return cfg
 
 
 def inject_hooks(kind, index, exc):
@@ -90,6 +95,8 @@ def run(spec):
     want = fresh.fresh_digests([{"problem": spec["problem"], "cfg": cfg}])[0]
     base = probes.run_min(P, cfg)
     out.count("problems")
+    if spec.get("iprint") is not None:
+        out.count("problems_with_verbose_logging")
     if base.exc is not None or want.startswith("raised"):
         out.count("baseline_raised")
         out.sample = dict(spec=spec, raised=repr(base.exc))
